@@ -190,6 +190,11 @@ pub fn plan_for(prop: &str, tier: &str) -> Plan {
             p.explanation = "joint breadth-first search over (ProgressTracker, reference configuration) pairs from every valid configuration over a small id universe under every change list through simple / enter_joint / leave_joint; invariants, error atomicity, restore round trip and quorum intersection over all subset pairs checked after every call".into();
             p.assumptions = vec!["value bounds: id universe and change-list lengths as listed in the run statistics".into()];
         }
+        "C14" => {
+            p.components = vec!["raftlog"];
+            p.explanation = "joint breadth-first search over (RaftLog<SimStorage> incl. Unstable and storage, plain sequence model) pairs under every legal operation (leader append, follower maybe_append incl. conflicts at every position, commit, the ready / stable / persist-notification cycle incl. stale notifications, snapshot restore, apply, compaction) until fixpoint; every observer compared after every operation".into();
+            p.assumptions = vec!["value bounds: log index, term and number of outstanding readies as listed in the run statistics; operations only within the call orders RawNode/Raft can produce; documented panics (conflict at or below the commit index, commit beyond last index) are not in the alphabet".into()];
+        }
         "C18" => {
             p.components = vec!["inflights"];
             p.explanation = "joint breadth-first search over (Inflights, bounded-FIFO model) pairs under every operation sequence until fixpoint".into();
